@@ -54,6 +54,63 @@ theorem headerOf_cl (cfg : Cfg) (st : Http1.PState) (hr : HdrResult) (h : header
     subst h
     simp
 
+theorem te_ne_cl : (idTransferEncoding == idContentLength) = false := by decide
+
+theorem any_te_filter (l : List Entry) : l.any isTe = (l.filter (fun e => !isCl e)).any isTe := by
+  induction l with
+  | nil => rfl
+  | cons e r ih =>
+    by_cases hc : isCl e = true
+    · have : isTe e = false := by
+        unfold isTe isCl at *
+        have := te_ne_cl
+        cases h1 : e.id == idTransferEncoding
+        · rfl
+        · exfalso
+          have e1 : e.id = idTransferEncoding := by simpa using h1
+          have e2 : e.id = idContentLength := by simpa using hc
+          rw [e1] at e2
+          simp [e2] at this
+      simp [List.filter, hc, this, ih]
+    · simp [List.filter, hc, ih]
+
+theorem any_te_delById_cl (l : List Entry) : (delById l idContentLength).any isTe = l.any isTe := by
+  rw [any_te_filter l]
+  unfold delById
+  congr 1
+
+theorem finish_te (c : Header.Cfg) (es : List Entry) (cl : ClState) (hr : HdrResult) (h : finish c es cl = .ok hr)
+    (hte : hr.entries.any isTe = true) : es.any isTe = true := by
+  unfold finish at h
+  split at h
+  · simp only [Outcome.ok.injEq] at h; subst h
+    exfalso
+    simp only [delById, List.any_filter, isTe] at hte
+    simp at hte
+  · split at h
+    · rename_i hany
+      simpa [isTe] using hany
+    · split at h
+      · simp only [Outcome.ok.injEq] at h; subst h
+        simpa [any_te_delById_cl] using hte
+      · split at h
+        · dsimp only at h
+          split at h
+          · simp only [Outcome.ok.injEq] at h; subst h
+            simp only [List.any_append, any_te_delById_cl, Bool.or_eq_true] at hte
+            rcases hte with hte | hte
+            · exact hte
+            · exfalso
+              simp only [List.any_cons, List.any_nil, Bool.or_false, isTe] at hte
+              have := te_ne_cl
+              simp at hte
+              rw [hte] at this
+              simp at this
+          · simp only [Outcome.ok.injEq] at h; subst h
+            simpa [any_te_delById_cl] using hte
+        · simp only [Outcome.ok.injEq] at h; subst h
+          exact hte
+
 theorem headerOf_te_no_cl (cfg : Cfg) (st : Http1.PState) (hr : HdrResult) (h : headerOf cfg st = .ok hr)
     (hte : chunked hr.entries = true) : contentLength hr.entries = none := by
   unfold headerOf at h
@@ -74,7 +131,101 @@ theorem headerOf_te_no_cl (cfg : Cfg) (st : Http1.PState) (hr : HdrResult) (h : 
         | some p =>
           obtain ⟨es, cl⟩ := p
           simp only [hfold] at h
-          sorry
+          have hes := finish_te _ es cl hr h (by simpa [chunked, hasId, isTe] using hte)
+          obtain ⟨_, _, hnon, _, _⟩ := clFold_spec cfg.relaxed raw [] {} [] es cl (shape_init cfg.relaxed) hfold
+          rw [any_te_filter, hnon] at hes
+          simp only [List.filter_nil, List.nil_append] at hes
+          rw [← any_te_filter] at hes
+          exact ht (by simpa [hasTe, isTe] using hes)
   · simp only [Outcome.ok.injEq] at h
     subst h
     simp [chunked, hasId] at hte
+
+/-! ### what goes upstream -/
+
+theorem filterMap_copy_true (es : List Entry) : es.filterMap (copyFraming true) = [] := by
+  induction es with
+  | nil => rfl
+  | cons e r ih =>
+    have : copyFraming true e = none := by
+      unfold copyFraming
+      by_cases h1 : (e.id == idTransferEncoding) = true
+      · simp [h1]
+      · by_cases h2 : (e.id == idContentLength) = true <;> simp [h1, h2]
+    simp [this, ih]
+
+theorem filterMap_copy_false (es : List Entry) : es.filterMap (copyFraming false) = es.filter isCl := by
+  induction es with
+  | nil => rfl
+  | cons e r ih =>
+    by_cases h2 : (e.id == idContentLength) = true
+    · have h1 : (e.id == idTransferEncoding) = false := by
+        have e2 : e.id = idContentLength := by simpa using h2
+        rw [e2]
+        have := te_ne_cl
+        cases hx : idContentLength == idTransferEncoding
+        · rfl
+        · have e3 : idContentLength = idTransferEncoding := by simpa using hx
+          rw [e3] at this
+          simp at this
+      have : copyFraming false e = some e := by simp [copyFraming, h1, h2]
+      simp [this, ih, isCl, h2]
+    · have : copyFraming false e = none := by
+        unfold copyFraming
+        by_cases h1 : (e.id == idTransferEncoding) = true <;> simp [h1, h2]
+      simp [this, ih, isCl, h2]
+
+/-- the framing fields written upstream for an accepted head -/
+theorem forwarded_framing_of_head {cfg : Cfg} {url : Bytes → Bytes → Option UrlView} {buf rest : Bytes} {es : List Entry}
+    {cl : Int} {vmaj vmin : Nat} {m u : Bytes} (h : head cfg url buf = .ok rest es cl vmaj vmin m u) :
+    (chunked es = true →
+      forwardedFraming es (chunkedRequest (bodyKind es cl) cl) = [⟨idTransferEncoding, nameOf idTransferEncoding, chunkedToken⟩]) ∧
+    (chunked es = false →
+      forwardedFraming es (chunkedRequest (bodyKind es cl) cl) = es.filter isCl ∧ (es.filter isCl).length ≤ 1 ∧
+      ∀ e ∈ es.filter isCl, ∃ n : Nat, cl = (n : Int) ∧ decimalValue (strip e.value) = some n) := by
+  obtain ⟨_, _, _, hv, _, _, _, hr, hhdr, rfl, hcl, _⟩ := head_ok_inv h
+  constructor
+  · intro hte
+    -- Transfer-Encoding present: the parser deleted Content-Length, so content_length = -1 and Squid chunks upstream
+    have hv1 : vmaj ≥ 1 := by
+      by_cases hge : vmaj ≥ 1
+      · exact hge
+      · exfalso
+        unfold headerOf at hhdr
+        rw [← hv] at hhdr
+        simp only [hge, false_and, if_false, Outcome.ok.injEq] at hhdr
+        subst hhdr
+        simp [chunked, hasId] at hte
+    have hnone := headerOf_te_no_cl cfg _ hr hhdr hte
+    have hneg : cl = -1 := by
+      rw [hcl, if_pos hv1, getInt64_cl_eq, hnone]; rfl
+    have hk : bodyKind hr.entries cl = .chunkedBody := by simp [bodyKind, hte]
+    have hreq : chunkedRequest (bodyKind hr.entries cl) cl = true := by
+      rw [hk, hneg]; rfl
+    rw [hreq]
+    simp [forwardedFraming, filterMap_copy_true]
+  · intro hte
+    have hreq : chunkedRequest (bodyKind hr.entries cl) cl = false := by
+      unfold bodyKind
+      simp only [hte, Bool.false_eq_true, if_false]
+      split
+      · rename_i hpos
+        simp only [chunkedRequest]
+        exact decide_eq_false (by omega)
+      · rfl
+    obtain ⟨hle, hall⟩ := headerOf_cl cfg _ hr hhdr
+    refine ⟨by simp [forwardedFraming, hreq, filterMap_copy_false], hle, ?_⟩
+    intro e he
+    simp only [List.mem_filter] at he
+    obtain ⟨n, hn, hd⟩ := hall e he.1 (by simpa [isCl] using he.2)
+    refine ⟨n, ?_, hd⟩
+    have hv1 : vmaj ≥ 1 := by
+      by_cases hge : vmaj ≥ 1
+      · exact hge
+      · exfalso
+        unfold headerOf at hhdr
+        rw [← hv] at hhdr
+        simp only [hge, false_and, if_false, Outcome.ok.injEq] at hhdr
+        subst hhdr
+        simp at he
+    rw [hcl, if_pos hv1, getInt64_cl_eq, hn]; rfl
